@@ -27,6 +27,7 @@ mod c09;
 mod c10;
 mod c15;
 mod c17;
+mod clilegs;
 mod clonechecks;
 mod clonelab;
 mod codec;
